@@ -1,10 +1,12 @@
 package dbsim
 
 import (
+	"fmt"
 	"testing"
 	"testing/synctest"
 	"time"
 
+	"verifharness/hookctl"
 	"verifharness/vkit"
 )
 
@@ -45,16 +47,54 @@ func RunBubble(t *testing.T, r *vkit.Run, idx int, o Opts, nontrivial func(*Sim)
 			s.DB.Stop()
 			s.Finish(nontrivial(s))
 		}()
+		var pause *hookctl.Pause
+		defer func() {
+			if pause != nil {
+				pause.Resume()
+			}
+		}()
 		defer s.Recover()
-		for i := 0; i < o.Txns && !s.Failed; i++ {
+		step := func(i int) {
 			if o.Iterators && s.Rng.IntN(100) < 45 {
 				s.IterStep(i)
 			} else {
 				s.RunTxn(i)
 			}
+		}
+		for i := 0; i < o.Txns && !s.Failed; i++ {
+			if o.ForceGC && o.Ctl != nil && pause == nil {
+				pause = o.Ctl.PauseAt(s.Handle, "gc.afterScan")
+			}
+			step(i)
+			if pause != nil && pause.Reached() {
+				// the collector is between its lock-free scan and its write transaction: change the table under it
+				s.gcPauses++
+				s.Logf("collector paused at gc.afterScan")
+				for k := 0; k < 1+s.Rng.IntN(3) && !s.Failed; k++ {
+					step(1000 + i*10 + k)
+				}
+				s.Logf("collector resumed")
+				pause.Resume()
+				pause = nil
+				s.O.Sleep()
+			}
 			if s.Rng.IntN(4) == 0 {
 				s.O.Sleep()
 			}
+			if o.Quiesce && s.Rng.IntN(12) == 0 {
+				if pause != nil {
+					pause.Resume()
+					pause = nil
+				}
+				s.Quiesce(fmt.Sprintf("q%d", i))
+			}
+		}
+		if pause != nil {
+			pause.Resume()
+			pause = nil
+		}
+		if o.Quiesce {
+			s.Quiesce("final")
 		}
 	})
 }
